@@ -73,7 +73,7 @@ def doc_any(x):
 
 
 def _layout(rng):
-    cls = str(rng.choice(['same', 'strided', 'gapped', 'multi_replica', 'second_ensemble', 'bare']))
+    cls = str(rng.choice(['same', 'strided', 'gapped', 'multi_replica', 'second_ensemble', 'bare', 'prefix_ensembles']))
     if cls == 'bare':
         return [('ensX', gen.make_idl(rng, str(rng.choice(gen.IDL_CLASSES)), int(rng.integers(5, 12))))]
     if cls == 'second_ensemble':
@@ -98,6 +98,7 @@ def _covs(rng):
     a = rng.normal(size=(dim, dim))
     cov = a @ a.T + 0.3 * np.eye(dim)
     cov = (cov + cov.T) / 2
+    cov = cov * float(rng.choice([1.0, 1.0, 1e-10, 1e-16, 1e6]))          # systematic errors of any size
     cl = pe.cov_Obs([float(rng.normal()) for _ in range(dim)], cov, 'sys %d' % dim)
     return [cl] if dim == 1 else list(cl)
 
@@ -119,10 +120,18 @@ def make_structure(rng, kind):
     if kind == 'list':
         return [ob() for _ in range(int(rng.integers(1, 4)))]
     if kind == 'array':
-        shape = tuple(int(rng.integers(1, 3)) for _ in range(int(rng.integers(1, 4))))
+        shape = tuple(int(rng.integers(1, 4)) for _ in range(int(rng.integers(1, 4))))
         arr = np.empty(shape, dtype=object)
         for idx in np.ndindex(shape):
             arr[idx] = ob()
+        # arrays that are not C-contiguous in memory (transposed views, Fortran order) are arrays all the same
+        view = str(rng.choice(['c', 'c', 'transpose', 'fortran', 'swap']))
+        if view == 'transpose' and arr.ndim >= 2:
+            arr = arr.T
+        elif view == 'fortran' and arr.ndim >= 2:
+            arr = np.asfortranarray(arr)
+        elif view == 'swap' and arr.ndim >= 2:
+            arr = np.swapaxes(arr, 0, arr.ndim - 1)
         return arr
     if kind == 'corr':
         T = int(rng.integers(2, 6))
